@@ -173,6 +173,8 @@ func runC20(p *Plan) *Result {
 	skip := f.SkipVerify == true || f.SkipVerify == "true"
 
 	w := NewWorld(&spec, p.SchedSeed, 0, nil)
+	installHooks(w.Sim) // scheduler off: yields return at once, but a lock that is never released is detected
+	defer removeHooks()
 	w.StartNet(nil)
 	defer w.Close()
 	idp := w.IdPs[0]
@@ -311,15 +313,41 @@ func runC20(p *Plan) *Result {
 		nAtLoad = len(events)
 		offGrid = true
 	}
+	var longLived *http.Client // built at the first successful load and kept, like the JWKS fetcher's client
+	var firstConf *tls.Config
 	probe := func(n int) {
 		if !boot() {
 			return
 		}
+		defer func() {
+			if r := recover(); r != nil {
+				if strings.Contains(fmt.Sprint(r), "simsync") {
+					viol("tls-pool-lock-never-released", fmt.Sprintf("probe #%d: LoadTLSConfig could not take the pool lock within the step budget: %v", n, r))
+					return
+				}
+				panic(r)
+			}
+		}()
 		firstUse()
 		t := time.Now()
 		want, why := expect(t)
 		cfg := w.Filters[0].Cfg
 		client, err := inthttp.NewHTTPClient(cfg, w.Rep.tlsPool, nil)
+		if err == nil && loaded {
+			if tr, ok := client.Transport.(*http.Transport); ok {
+				if firstConf == nil {
+					firstConf = tr.TLSClientConfig
+				} else if tr.TLSClientConfig != firstConf && (f.CAFile != "" || f.CAInline != "" || f.SkipVerify != nil) {
+					viol("identical-settings-do-not-share-one-configuration:over-time", fmt.Sprintf("probe #%d: the pool handed out a different *tls.Config than at the first use of the same settings", n))
+				}
+			}
+			if longLived == nil {
+				longLived = client
+			} else if n%2 == 0 {
+				client = longLived // probe through the long-lived client: it must follow rotation too
+				w.probe("long-lived-client-probes")
+			}
+		}
 		got := "fail"
 		detail := ""
 		if err != nil {
@@ -334,6 +362,9 @@ func runC20(p *Plan) *Result {
 				detail = err.Error()
 			}
 			client.CloseIdleConnections()
+		}
+		if client == longLived && longLived != nil {
+			detail += " (long-lived client)"
 		}
 		w.logf("t=%s probe#%d serverCA=%d -> %s (expected %s: %s) %s", time.Since(w.start).Round(time.Millisecond), n, idp.ServerCA, got, want, why, detail)
 		w.probe("handshakes")
